@@ -184,8 +184,9 @@ def main(rec):
         libs = [x for i, x in enumerate(libs) if x[0].startswith("gmix") or i % 10 == common.seed() % 10]
     for name, d, meta in libs:
         descs.append((name, d, ["--logdir", "out", "--outdir", "out"], None, "work/%s.yaml" % name))
-    if not thorough:
-        descs = [x for i, x in enumerate(descs) if i % 2 == common.seed() % 2 or x[0].startswith("gmix")]
+    # quick tier: the plain run is made for every description; the supplied-body variants for every second one (rotating
+    # with the seed), for the generated mixes, and for every description that emits a splicer name more than once
+    rotation = {x[0] for i, x in enumerate(descs) if i % 2 == common.seed() % 2 or x[0].startswith("gmix")}
 
     # ---- phase 1: plain runs (names + defaults)
     p1 = [plain_spec(dsc) for dsc in descs]
@@ -210,18 +211,31 @@ def main(rec):
         # names to supply: blocks that exist in the emitted files exactly once (a name emitted twice cannot
         # be addressed unambiguously) and that upstream's own splicers do not already fill
         avail = {}
+        dups = []
         for (lang, n), bodies in sorted(defaults.items()):
             evs = mon.get(lang, {}).get(n, [])
             if len(bodies) == 1 and evs and all(e["source"] in ("default", "none") for e in evs):
                 avail.setdefault(lang, []).append(n)
-            elif len(bodies) > 1 and evs and all(e["source"] in ("default", "none") for e in evs) and r.random() < 0.5:
+            elif len(bodies) > 1 and evs and all(e["source"] in ("default", "none") for e in evs):
                 # a name emitted several times (class template instantiations share class.<name>.*): the user's code
                 # must reach every block of that name
-                avail.setdefault(lang, []).append(n)
-                rec.count("multiply_emitted_names_supplied")
+                dups.append((lang, n))
         rec.count("duplicate_block_names_in_output", sum(1 for b in defaults.values() if len(b) > 1))
+        if not thorough and name not in rotation and not dups:
+            jobs.append(roundtrip_spec(dsc, rr))
+            jobs.append(roundtrip_spec(dsc, rr, edit=common.rng("c12edit", name)))
+            continue
         nvar = 6 if thorough else 2
+        avail0 = avail
         for k in range(nvar):
+            # every multiply-emitted name is supplied in one of two consecutive variants
+            avail = {l_: list(v_) for l_, v_ in avail0.items()}
+            forced_pick = {}
+            for j, (lang, n) in enumerate(dups):
+                if (j + k) % 2 == 0:
+                    avail.setdefault(lang, []).append(n)
+                    forced_pick.setdefault(lang, []).append(n)
+                    rec.count("multiply_emitted_names_supplied")
             routes = r.choice([("file",), ("code",), ("file", "code"), ("file", "decl"), ("code", "decl"), ("file", "code", "decl")])
             supplied = {}   # (lang, name) -> (route, lines)
             forced_decls = {}
@@ -231,6 +245,7 @@ def main(rec):
             per_route = {"file": {}, "code": {}}
             for lang, names in avail.items():
                 pick = r.sample(names, min(len(names), r.randint(1, 5)))
+                pick = pick + [n for n in forced_pick.get(lang, [])[:6] if n not in pick]
                 for n in pick:
                     route = r.choice([x for x in routes if x != "decl"] or ["file"])
                     body = gen_body(r, lang)
